@@ -341,6 +341,7 @@ func genC08(run *hx.Run, r *hx.Rng) {
 	genNodeInfoStruct(run, r, run.N/4)
 	genRecords(run, r, run.N/2)
 	genMsgIDGC(run, r)
+	genMetricsStream(run, r)
 	hangBlock(run, r) // last: if it deadlocks the validator the harness reports and exits
 }
 
